@@ -605,6 +605,12 @@ class Calls(Exec):
             m = self.ev1(a[0], st)
             ch = self.ev1(a[1], st)
             return VBool(self.holds(st, m, ch, node))
+        if name == 'uf_real':
+            # uf_real('name', a, b, ...): an uninterpreted real-valued function of the (opaque ids of the) arguments
+            fname = a[0].value
+            ids = [self.flatten(st, ('any',), self.ev1(x, st))[0] for x in a[1:]]
+            f = z3.Function('uf_' + fname, *([IntS] * len(ids) + [RealS]))
+            return VFloat(f(*ids))
         if name == 'int_str':
             return self.int_str(st, self.num(self.ev1(a[0], st)))
         if name == 'total_len':
